@@ -67,6 +67,9 @@ type CallLog struct {
 }
 
 type State struct {
+	// base: `opt lockhavoc`: the state right after the last acquisition of the declared mutex (other goroutines have
+	// acted by then); `old(...)` in ensures and invariants refers to it instead of the entry state
+	base *State
 	pc        []Term
 	cells     map[int]Val
 	sliceHeap map[string]Term
@@ -99,7 +102,7 @@ func NewState() *State {
 }
 
 func (s *State) Clone() *State {
-	n := &State{next: s.next, actions: s.actions, dead: s.dead, specIters: s.specIters[:len(s.specIters):len(s.specIters)], lastIter: s.lastIter, actionLog: s.actionLog[:len(s.actionLog):len(s.actionLog)], chunks: s.chunks, chanHeap: s.chanHeap, objHavoc: s.objHavoc[:len(s.objHavoc):len(s.objHavoc)]}
+	n := &State{base: s.base, next: s.next, actions: s.actions, dead: s.dead, specIters: s.specIters[:len(s.specIters):len(s.specIters)], lastIter: s.lastIter, actionLog: s.actionLog[:len(s.actionLog):len(s.actionLog)], chunks: s.chunks, chanHeap: s.chanHeap, objHavoc: s.objHavoc[:len(s.objHavoc):len(s.objHavoc)]}
 	n.pc = append([]Term(nil), s.pc...)
 	n.path = append([]string(nil), s.path...)
 	n.cells = make(map[int]Val, len(s.cells))
